@@ -2304,6 +2304,9 @@ int main(int argc, char** argv)
       "queries at random moments; edge-attach: every (node,new father) of every tree on <=5 (thorough 6) nodes with each way of passing an edge id / edge object; "
       "dag-enumeration: all digraphs without self-loop on <=4 nodes and all forward-link graphs on 5,6 nodes (every DAG shape), validity/rootedness/fathers/sons/below queries "
       "and cache probes (edit right after a cached answer); dag-5-nodes: all 2^20 digraphs on 5 nodes (sampled in the quick tier); dag-history: random edit histories. "
+      "Observer layer, in every group: all live node / edge objects carry a user index (labeling drawn per structure: equal to the graph ids, a derangement of the ids, random labels, "
+      "labels outside the id range, first free label) and every index-taking overload that can be instantiated (hasFather, getEdgeToFather, getSons, getBranches, getLeavesUnderNode, "
+      "getSubtreeEdges, getSon, getFatherOfEdge; DAG: getFathers, hasFather, getSons, getSon, getFatherOfEdge) is compared with the definitions translated through the harness's own index table. "
       "A class key = (layer, clause, structural relation): kind of node (leaf/unary/internal, root or not, unary node below), relation of a node pair "
       "(equal/father/ancestor/unrelated same or different depth) with or without the ancestor, MRCA subset class (size, nested or antichain, depths, MRCA at or below the root), "
       "reason why a graph is not a tree x last edit, re-rooting from rooted/unrooted, tree shape class (n, max degree, unary nodes).";
@@ -2318,6 +2321,8 @@ int main(int argc, char** argv)
     "inputs in defect areas owned by C14 are not generated: edits needing unlink in undirected graphs, links on absent nodes, a second link between the same two nodes, "
     "explicit edge ids in the range the graph allocates itself; after makeDirected() reversed edge end points are tolerated and getBottom-based queries skipped",
     "the tree observer refuses edge objects it does not know (bpp exception): accepted, counted as unjudged",
+    "node / edge indexes are arbitrary user labels without relation to graph ids; index bookkeeping itself (setNodeIndex/addNodeIndex refusing, an edge object losing its index when moved) "
+    "is outside the statement: lost indexes are given again, a refused assignment switches the index forms off for that case (tallied)",
   };
   meta.requiredClauses = { "tree.isValid", "tree.isRooted", "tree.father", "tree.sons", "tree.branches", "tree.leavesUnder", "tree.subtreeNodes", "tree.subtreeEdges", "tree.nodePath",
                            "tree.edgePath", "tree.mrca", "tree.edgeToFather", "tree.edgeLinking", "reroot.edge-set", "reroot.orientation", "reroot.unique-fatherless-root", "reroot.valid",
